@@ -79,7 +79,7 @@ func runOutlineCase(wt *watch, c *OutlineCase, idx int, layout int) Event {
 		}
 	}
 	env := &Env{R: r, Dec: decoder.NewDecoder(r)}
-	env.Dec.SetContext(decoder.NewDecoderContext())
+	env.Dec.SetContext(newDecCtx())
 	o := env.Run(wt, Q{Kind: "wsymbols", Query: c.Query})
 	ev["paths"] = c.Paths
 	ev["query"] = c.Query
